@@ -210,17 +210,26 @@ struct Acc {
   double max_ulps = 0, max_cond = 0, max_delta_ulps = 0;
 };
 
-static const char* const kClassName[5] = {"wide", "moderate", "near-equal", "near-one", "dominant-near-equal-diagonal"};
+static const char* const kClassName[6] = {"wide", "moderate", "near-equal", "near-one", "dominant-near-equal-diagonal", "float-wide"};
+// Rows for which the float instantiation holds over +-100 binades on the tree the list was calibrated on (the library
+// evaluates many squares through std::pow, i.e. in double): a later change that narrows that range is a violation.
+// In calibration mode every row gets the class and failures are listed instead of reported.
+static std::set<std::string> g_wide_rows;
+static bool g_calibrate = false;
 
 // ------------------------------------------------------------------------------------------------
 // row-independent half (instantiated once per numeric type and translation unit)
 // ------------------------------------------------------------------------------------------------
 // Independent positive inputs.  Binary exponent +-66 is +-20 decades, +-19 is +-6 decades.
 template <typename T>
-static int draw(Rng& rng, std::vector<T>& x) {
+static int draw(Rng& rng, std::vector<T>& x, bool float_wide) {
   constexpr int E = std::is_same_v<T, float> ? 19 : 66;
-  const uint64_t pick = rng.below(12);
-  const int cls = pick < 4 ? 0 : pick < 6 ? 1 : pick < 8 ? 2 : pick < 10 ? 3 : (x.size() >= 6 ? 4 : 2);
+  const uint64_t pick = rng.below(float_wide ? 15 : 12);
+  const int cls = pick < 4 ? 0 : pick < 6 ? 1 : pick < 8 ? 2 : pick < 10 ? 3 : pick < 12 ? (x.size() >= 6 ? 4 : 2) : 5;
+  if (cls == 5) {
+    for (auto& v : x) v = rng.logu<T>(-100, 100);
+    return cls;
+  }
   if (cls == 0) {
     for (auto& v : x) v = rng.logu<T>(-E, E);
   } else if (cls == 1) {
@@ -315,6 +324,10 @@ static void judge(Reporter& R, const RowInfo& ri, Acc& acc, int cls, uint64_t k,
     if (eu > worst) worst = eu;
     if (ec > acc.max_cond) acc.max_cond = ec;
     if (dud > acc.max_delta_ulps) acc.max_delta_ulps = dud;
+    if (!(ec <= kK) && cls == 5 && g_calibrate) {
+      R.list("float_wide_failing_rows", ri.name);
+      return;
+    }
     if (!(ec <= kK)) {
       std::string key = "C18|row=" + ri.name + "|" + Num<T>::name;
       if (m > 1) key += "|slot=" + std::to_string(j);
@@ -380,14 +393,16 @@ static void run_cases(Reporter& R, const Args& A, const RowInfo& ri, Acc& acc, C
   for (long long k = 0; k < cases; ++k) {
     if (!A.mine(static_cast<uint64_t>(k) + static_cast<uint64_t>(ri.index))) continue;
     Rng rng(mix(mix(A.seed, static_cast<uint64_t>(ri.index) * 4 + Num<T>::idx), static_cast<uint64_t>(k)));
-    const int cls = draw<T>(rng, x);
+    const bool float_wide = std::is_same_v<T, float> && (g_calibrate || g_wide_rows.count(ri.name) == 1);
+    const int cls = draw<T>(rng, x, float_wide);
+    if (cls == 5) R.count("float_wide_cases");
     std::tuple<In...> args{build<In, T>(x, offs[Is], acc)...};
     const Out out = call(std::get<Is>(args)...);
     const auto got = to_si(out);
     judge<T>(R, ri, acc, cls, static_cast<uint64_t>(k), x, got.data());
     // distinct case = (row, numeric type, input class); every shard meets every class, so each key is counted by
     // the one shard it is assigned to (the driver adds the shards' counts)
-    const uint64_t dk = static_cast<uint64_t>(ri.index) * 16 + static_cast<uint64_t>(Num<T>::idx) * 4 + static_cast<uint64_t>(cls);
+    const uint64_t dk = static_cast<uint64_t>(ri.index) * 32 + static_cast<uint64_t>(Num<T>::idx) * 8 + static_cast<uint64_t>(cls);
     if (A.mine(dk)) R.nontrivial(mix(dk, 0xC18));
   }
 }
@@ -744,6 +759,16 @@ static void table(Reporter& R, const Args& A) {
 enum { kRows = __COUNTER__ - kBase };
 
 void VERIF_THIS_PART(Reporter& R, const Args& A) {
+  // per translation unit: the calibrated list of rows judged over the wide float range (one name per line)
+  g_calibrate = A.n("calibrate", 0) != 0;
+  g_wide_rows.clear();
+  {
+    std::ifstream in(A.get("wide_rows"));
+    std::string line;
+    while (std::getline(in, line)) {
+      if (!line.empty()) g_wide_rows.insert(line);
+    }
+  }
   table<float>(R, A);
   table<double>(R, A);
   table<long double>(R, A);
